@@ -196,6 +196,7 @@ func checkSched(sc sscen, st *sstate) []sched.Viol {
 				acked[x] = o.client
 				if !released[o.client] {
 					v.leased, v.prev, v.offer = x, x, ""
+					v.bound, v.boundUntil = x, now.Add(r.Pkt.IPAddressLeaseTime(0))
 					delete(v.pinned, x)
 					delete(s.offers, o.client+"/"+x)
 				}
@@ -208,7 +209,7 @@ func checkSched(sc sscen, st *sstate) []sched.Viol {
 	// order, the lease table is the truth about what it still holds
 	for n := range released {
 		v := s.view[n]
-		v.leased = ""
+		v.leased, v.bound = "", ""
 		for _, l := range s.d.Leases() {
 			if s.who(l.Key) == n {
 				v.leased, v.prev = ip4s(l.IP), ip4s(l.IP)
